@@ -601,6 +601,10 @@ func (s HashizeInstr) Execute(env *Zlisp) error {
 		}
 		a = append(a, expr)
 	}
+	// popped last-pushed first: back into the order of the template
+	for i, j := 0, len(a)-1; i < j; i, j = i+1, j-1 {
+		a[i], a[j] = a[j], a[i]
+	}
 	hash, err := MakeHash(a, s.TypeName, env)
 	if err != nil {
 		return err
